@@ -13,16 +13,25 @@ pub fn converge_case(cfg: &RingCfg, sim: &mut Sim, obs: &mut Obs) -> CaseResult 
 /// population); the bound then counts from there, plus the time the others need to notice a token
 /// that left with it.
 pub fn converge_case_leave(cfg: &RingCfg, sim: &mut Sim, leave: Option<(usize, i64)>, obs: &mut Obs) -> CaseResult {
+    converge_case_rejoin(cfg, sim, leave, None, obs)
+}
+
+/// `rejoin`: the station that left is switched on again that many microseconds later (set_offline,
+/// set_online, empty receive buffer): it joins like any other late joiner.
+pub fn converge_case_rejoin(cfg: &RingCfg, sim: &mut Sim, leave: Option<(usize, i64)>, rejoin: Option<i64>, obs: &mut Obs) -> CaseResult {
     let mut expect = cfg.sorted_addrs();
     let mut pop_stable_at = cfg.stations.iter().map(|s| s.online_at_us).max().unwrap_or(0);
     let mut extra = 0;
     if let Some((k, at)) = leave {
-        expect.retain(|a| *a != cfg.stations[k].addr);
-        pop_stable_at = pop_stable_at.max(at);
+        if rejoin.is_none() {
+            expect.retain(|a| *a != cfg.stations[k].addr);
+        }
+        pop_stable_at = pop_stable_at.max(at + rejoin.unwrap_or(0));
         let a_max = i64::from(*expect.last().unwrap());
         extra = 2 * (6 + 2 * a_max) * cfg.slot_us() + 3 * (cfg.slot_us() + cfg.bits_us(100));
     }
     let mut left = false;
+    let mut back = false;
     let deadline = pop_stable_at + t_conv_us(cfg) + extra;
     let n = expect.len();
     let rot = rotation_bound_us(cfg, n);
@@ -46,11 +55,23 @@ pub fn converge_case_leave(cfg: &RingCfg, sim: &mut Sim, leave: Option<(usize, i
                 sim.stop_station(k);
                 left = true;
             }
+            if let (true, false, Some(d)) = (left, back, rejoin) {
+                if tn >= at + d {
+                    sim.restart_station(k, at + d);
+                    back = true;
+                }
+            }
         }
         let ev = sim.step();
         let Some(Event::Polled(_)) = ev else { continue };
         if sim.now < pop_stable_at {
             continue;
+        }
+        if let (Some((k, _)), Some(_)) = (leave, rejoin) {
+            // the population is complete when the station that was switched on again runs
+            if !back || !sim.nodes[k].started {
+                continue;
+            }
         }
         match converged_at {
             None => {
@@ -104,7 +125,15 @@ fn join_case(t: &mut Tape, obs: &mut Obs, max_hsa_extra: u64) -> CaseResult {
     } else {
         None
     };
-    converge_case_leave(&cfg, &mut sim, leave, obs)?;
+    // ... or, now and then, is switched off and on again: after a few slot times (its predecessor
+    // may still be repeating the token pass to it) or after a longer while
+    let rejoin = if leave.is_some() && !t.chance(2, 3) {
+        obs.label("the-station-that-left-is-switched-on-again");
+        Some(if t.bool() { cfg.slot_us() * (1 + t.below(12) as i64) / 4 } else { cfg.slot_us() * (1 + t.below(400) as i64) })
+    } else {
+        None
+    };
+    converge_case_rejoin(&cfg, &mut sim, leave, rejoin, obs)?;
     if sorted.contains(&(cfg.hsa - 1)) {
         obs.label("station-at-hsa-1");
     }
@@ -296,7 +325,7 @@ fn las_random(t: &mut Tape, obs: &mut Obs) -> CaseResult {
 pub fn property() -> Property {
     Property {
         id: "C02",
-        rule: "cases: fault-free rings as in C01 (explicitly biased to a station at HSA-1, at TS-1 of another, address 0, two-station rings; cold start, late joiners, several joiners at the same instant). After the population stops changing the run must reach, within T_conv (DESIGN 5.4), an instant from which on after EVERY poll every station is in the ring, its LAS equals the sorted set of online addresses and NS/PS are its cyclic neighbours; this must hold through a stability window of 3(G+2+HSA) rotations in which the token frames on the trace follow the ascending cyclic order without retry or skipped station. Non-trivial = every case (all contain a station that joins through a GAP poll); distinct by (baud, addresses, HSA, G, Tslot, schedule, number of late joiners).",
+        rule: "cases: fault-free rings as in C01 (explicitly biased to a station at HSA-1, at TS-1 of another, address 0, two-station rings; cold start, late joiners, several joiners at the same instant; in a quarter of the join cases a station leaves for good, in a third of those it is switched on again after a few slot times or a long while). After the population stops changing the run must reach, within T_conv (DESIGN 5.4), an instant from which on after EVERY poll every station is in the ring, its LAS equals the sorted set of online addresses and NS/PS are its cyclic neighbours; this must hold through a stability window of 3(G+2+HSA) rotations in which the token frames on the trace follow the ascending cyclic order without retry or skipped station. Non-trivial = every case (all contain a station that joins through a GAP poll); distinct by (baud, addresses, HSA, G, Tslot, schedule, number of late joiners).",
         assumptions: vec![
             "T_conv = 4[(6+2 a_max) Tslot + HSA (2 Tslot + 100 bit) + N (HSA+G+6) R], R = N (4 Tslot + 150 bit + 8 P) - generous by construction (measured margin >= 3x, see counters converged_after_slots vs t_conv_slots)",
             "poll period cap and cold-start exclusions as in C01",
